@@ -626,4 +626,110 @@ theorem rangesWalk_doc (f : Bool) (d : Doc) (fuel : Nat) (hf : depth d.value ≤
   · right
     simp [Doc.text, Doc.toks, toksBytes_append]
 
+/-! ### tree-level statement of the interest bits -/
+
+theorem truePositions_append (xs ys : List Bool) :
+    truePositions (xs ++ ys) = truePositions xs ++ (truePositions ys).map (· + xs.length) := by
+  induction xs with
+  | nil => simp [truePositions]
+  | cons b bs ih =>
+    simp only [List.cons_append, truePositions, ih, List.map_append, List.map_map, List.length_cons]
+    rw [List.append_assoc]
+    congr 2
+    all_goals (try (apply List.map_congr_left; intro x _; simp; omega))
+
+/-- positions of the interest bits of a token segment that starts at text offset `a` -/
+def nodeStarts (ts : List Tok) (a : Nat) : List Nat := (truePositions (toksStdIb ts)).map (· + a)
+
+@[simp] theorem nodeStarts_nil (a : Nat) : nodeStarts [] a = [] := rfl
+
+theorem nodeStarts_append (t1 t2 : List Tok) (a : Nat) :
+    nodeStarts (t1 ++ t2) a = nodeStarts t1 a ++ nodeStarts t2 (a + blen t1) := by
+  simp only [nodeStarts, toksStdIb_append, truePositions_append, List.map_append, List.map_map,
+    toksStdIb_length, blen]
+  congr 1
+  apply List.map_congr_left; intro x _; simp; omega
+
+theorem nodeStarts_ws (w : Ws) (a : Nat) : nodeStarts (wsToks w) a = [] := by
+  simp only [nodeStarts, toksStdIb_ws]
+  have : ∀ n, truePositions (List.replicate n false) = [] := by
+    intro n; induction n with
+    | zero => rfl
+    | succ n ih => simp [List.replicate_succ, truePositions, ih]
+  simp [this]
+
+theorem truePositions_replicate_false (n : Nat) : truePositions (List.replicate n false) = [] := by
+  induction n with
+  | zero => rfl
+  | succ n ih => simp [List.replicate_succ, truePositions, ih]
+
+theorem nodeStarts_single (t : Tok) (a : Nat) :
+    nodeStarts [t] a = if Tok.isNode t then [a] else [] := by
+  simp only [nodeStarts, toksStdIb, List.flatMap_cons, List.flatMap_nil, List.append_nil, tokStdIb]
+  by_cases h : Tok.isNode t = true
+  · simp [h, truePositions, truePositions_replicate_false]
+  · simp [h, truePositions_replicate_false]
+
+theorem nodeStarts_cons (t : Tok) (ts : List Tok) (a : Nat) :
+    nodeStarts (t :: ts) a = (if Tok.isNode t then [a] else []) ++ nodeStarts ts (a + blen [t]) := by
+  have := nodeStarts_append [t] ts a
+  simpa [nodeStarts_single] using this
+
+mutual
+  theorem starts_val : ∀ (v : JVal) (a : Nat), nodeStarts v.toks a = (spansOf v a).map (·.1)
+    | .lit l, a => by simp [JVal.toks, nodeStarts_single, Tok.isNode, spansOf]
+    | .num n, a => by simp [JVal.toks, nodeStarts_single, Tok.isNode, spansOf]
+    | .str s, a => by simp [JVal.toks, nodeStarts_single, Tok.isNode, spansOf]
+    | .arr0 ws, a => by
+      simp [JVal.toks, nodeStarts_cons, nodeStarts_append, nodeStarts_ws, nodeStarts_single, Tok.isNode, spansOf]
+    | .obj0 ws, a => by
+      simp [JVal.toks, nodeStarts_cons, nodeStarts_append, nodeStarts_ws, nodeStarts_single, Tok.isNode, spansOf]
+    | .arr ws0 v ws1 rest, a => by
+      have e : (JVal.arr ws0 v ws1 rest).toks =
+          (Tok.lbracket :: wsToks ws0) ++ (v.toks ++ (wsToks ws1 ++ (rest.toks ++ [Tok.rbracket]))) := by
+        simp [JVal.toks]
+      simp only [e, nodeStarts_append]
+      rw [starts_val v, starts_items rest]
+      simp [nodeStarts_cons, nodeStarts_ws, nodeStarts_single, Tok.isNode, spansOf, Nat.add_assoc]
+    | .obj ws0 k ws1 ws2 v ws3 rest, a => by
+      have e : (JVal.obj ws0 k ws1 ws2 v ws3 rest).toks =
+          (Tok.lbrace :: wsToks ws0) ++ ((JVal.str k).toks ++ ((wsToks ws1 ++ (Tok.colon :: wsToks ws2)) ++
+            (v.toks ++ (wsToks ws3 ++ (rest.toks ++ [Tok.rbrace]))))) := by
+        simp [JVal.toks]
+      simp only [e, nodeStarts_append]
+      rw [starts_val v, starts_members rest]
+      simp [JVal.toks, nodeStarts_cons, nodeStarts_append, nodeStarts_ws, nodeStarts_single, Tok.isNode, spansOf,
+        Nat.add_assoc]
+  theorem starts_items : ∀ (r : JItems) (a : Nat), nodeStarts r.toks a = (itemsSpans r a).map (·.1)
+    | .nil, a => by simp [JItems.toks, nodeStarts, toksStdIb, truePositions, itemsSpans]
+    | .cons ws0 v ws1 rest, a => by
+      have e : (JItems.cons ws0 v ws1 rest).toks =
+          (Tok.comma :: wsToks ws0) ++ (v.toks ++ (wsToks ws1 ++ rest.toks)) := by
+        simp [JItems.toks]
+      simp only [e, nodeStarts_append]
+      rw [starts_val v, starts_items rest]
+      simp [nodeStarts_cons, nodeStarts_ws, Tok.isNode, itemsSpans, Nat.add_assoc]
+  theorem starts_members : ∀ (r : JMembers) (a : Nat), nodeStarts r.toks a = (membersSpans r a).map (·.1)
+    | .nil, a => by simp [JMembers.toks, nodeStarts, toksStdIb, truePositions, membersSpans]
+    | .cons ws0 k ws1 ws2 v ws3 rest, a => by
+      have e : (JMembers.cons ws0 k ws1 ws2 v ws3 rest).toks =
+          (Tok.comma :: wsToks ws0) ++ ((JVal.str k).toks ++ ((wsToks ws1 ++ (Tok.colon :: wsToks ws2)) ++
+            (v.toks ++ (wsToks ws3 ++ rest.toks)))) := by
+        simp [JMembers.toks, JVal.toks]
+      simp only [e, nodeStarts_append]
+      rw [starts_val v, starts_members rest]
+      simp [JVal.toks, nodeStarts_cons, nodeStarts_append, nodeStarts_ws, nodeStarts_single, Tok.isNode,
+        membersSpans, Nat.add_assoc]
+end
+
+/-- The positions of the interest bits of a document are the first bytes of its nodes in preorder. -/
+theorem ib_preorder (d : Doc) :
+    truePositions (reference d.text).ib = (spansOf d.value (blen (wsToks d.ws0))).map (·.1) := by
+  rw [(reference_doc d).1]
+  have h := nodeStarts_append (wsToks d.ws0) (d.value.toks ++ wsToks d.ws1) 0
+  have h2 := nodeStarts_append d.value.toks (wsToks d.ws1) (0 + blen (wsToks d.ws0))
+  simp only [nodeStarts_ws, List.nil_append, List.append_nil, Nat.zero_add] at h h2
+  rw [h2, starts_val] at h
+  simpa [nodeStarts, Doc.toks] using h
+
 end SV.JsonNav
